@@ -514,15 +514,21 @@ _public_ ssize_t m_mod_src_len(const m_mod_t *mod, m_src_types type) {
     M_MOD_ASSERT(mod);
     M_PARAM_ASSERT(type >= M_SRC_TYPE_PS && type <= M_SRC_TYPE_END);
     
+    /* M_SRC_TYPE_END: all sources; M_SRC_TYPE_PS: subscriptions; else: sources of requested type only */
     int len = 0;
-    m_itr_foreach(mod->subscriptions, {
-        ev_src_t *src = m_itr_get(m_itr);
-        if (!(src->flags & M_SRC_INTERNAL)) {
-            len++;
-        }
-    });
+    if (type == M_SRC_TYPE_PS || type == M_SRC_TYPE_END) {
+        m_itr_foreach(mod->subscriptions, {
+            ev_src_t *src = m_itr_get(m_itr);
+            if (!(src->flags & M_SRC_INTERNAL)) {
+                len++;
+            }
+        });
+    }
     
     for (int i = M_SRC_TYPE_FD; i < M_SRC_TYPE_END; i++) {
+        if (type != M_SRC_TYPE_END && type != (m_src_types)i) {
+            continue;
+        }
         m_itr_foreach(mod->srcs[i], {
             ev_src_t *src = m_itr_get(m_itr);
             if (!(src->flags & M_SRC_INTERNAL)) {
